@@ -35,6 +35,10 @@ class Agg:
             self.classes[c] = self.classes.get(c, 0) + 1
         for c, n in getattr(ctx, 'counters', {}).items():
             self.classes[c] = self.classes.get(c, 0) + n
+        # bodies that explore many inner cases (schedules of one configuration) report them individually
+        self.evaluations += max(0, int(getattr(ctx, 'inner_evaluations', 0)) - 1)
+        for hsh in getattr(ctx, 'inner_nontrivial', ()):
+            self.nt_hashes.add(hsh)
         jc = None
         if ctx.nontrivial:
             self.nt_hashes.add(case_hash(case))
